@@ -15,6 +15,7 @@ from pulser import Pulse
 
 seqgen.INT_IDS_RATE = 0.2
 seqgen.SCALAR_TARGET_RATE = 0.25
+seqgen.SHORTHAND_RATE = 0.35
 
 
 class SeqProp(PropCheck):
